@@ -1,0 +1,12 @@
+//go:build !verif
+
+package hap
+
+import "net"
+
+// Verification hooks (see verif_on.go). Without the "verif" build tag they are
+// empty and inlined away.
+
+func verifYield(op string, con net.Conn, b []byte) {}
+
+func verifOrderConns(cs []net.Conn) []net.Conn { return cs }
